@@ -24,8 +24,8 @@ class C11 : public Check
 public:
     const char *id() { return "C11"; }
     const char *opName(int k) { return uName(k); }
-    int quickRuns() { return 5000; }
-    int quickSeconds() { return 60; }
+    int quickRuns() { return 50000; }
+    int quickSeconds() { return 90; }
     int thoroughSeconds() { return 900; }
     const char *rule()
     {
